@@ -6,6 +6,8 @@ import (
 	"encoding/json"
 	"fmt"
 	"io"
+	"os"
+	"path/filepath"
 	"sync"
 
 	"github.com/gabriel-vasile/mimetype"
@@ -66,6 +68,79 @@ func detect(in []byte, limit uint32, entry string) (*mimetype.MIME, error) {
 	default:
 		return mimetype.Detect(in), nil
 	}
+}
+
+// forcedEntry is set by replays so that the recorded entry point is used again.
+var forcedEntry string
+
+// pickEntry chooses the entry point for one judged case: mostly Detect, sometimes
+// DetectReader behind an oddly chunking reader, rarely DetectFile on a temp file.
+func pickEntry(c *fw.Ctx) string {
+	if forcedEntry != "" {
+		return forcedEntry
+	}
+	switch k := c.Rand.Intn(1000); {
+	case k < 850:
+		return "Detect"
+	case k < 997:
+		return "DetectReaderChunked"
+	default:
+		return "DetectFile"
+	}
+}
+
+type oddChunks struct {
+	b   []byte
+	pos int
+	k   int
+}
+
+func (o *oddChunks) Read(p []byte) (int, error) {
+	if len(p) == 0 {
+		return 0, nil
+	}
+	if o.pos >= len(o.b) {
+		return 0, io.EOF
+	}
+	o.k++
+	n := []int{1, 3, 7, 2, 512, 5, 4096, 1}[o.k%8]
+	if n > len(p) {
+		n = len(p)
+	}
+	if n > len(o.b)-o.pos {
+		n = len(o.b) - o.pos
+	}
+	copy(p, o.b[o.pos:o.pos+n])
+	o.pos += n
+	if o.pos == len(o.b) && o.k%2 == 0 {
+		return n, io.EOF
+	}
+	return n, nil
+}
+
+// detectEntry runs the detection through the given entry point with the limit set explicitly.
+func detectEntry(in []byte, limit uint32, entry string) *mimetype.MIME {
+	mimetype.SetLimit(limit)
+	switch entry {
+	case "DetectReaderChunked":
+		m, err := mimetype.DetectReader(&oddChunks{b: in})
+		if err != nil {
+			panic("DetectReader returned an error for a reader that never fails: " + err.Error())
+		}
+		return m
+	case "DetectFile":
+		f := filepath.Join(os.TempDir(), fmt.Sprintf("verif-entry-%d.bin", os.Getpid()))
+		if werr := os.WriteFile(f, in, 0o600); werr != nil {
+			panic("verif harness: temp file: " + werr.Error())
+		}
+		defer os.Remove(f)
+		m, err := mimetype.DetectFile(f)
+		if err != nil {
+			panic("DetectFile returned an error for a readable file: " + err.Error())
+		}
+		return m
+	}
+	return mimetype.Detect(in)
 }
 
 type iotest1 struct{ r io.Reader }
